@@ -400,3 +400,4 @@ def run(res, facts, tier):
     from . import c19_own
     own = c19_own.run_rules(res, facts, tier)
     c19_own.r8_handover(res, facts, own)
+    c19_own.r9_destruct_only(res, facts)
